@@ -162,8 +162,7 @@ program!(c09_ciede2000_symmetric, "C09", "thorough", s,
     let (l1, a1, b1) = (T::var("l1", 0.0, 100.0), T::var("a1", -128.0, 127.0), T::var("b1", -128.0, 127.0));
     let x: Lab<D65, T> = Lab::new(l1, a1, b1);
     let y: Lab<D65, T> = Lab::new(T::var("l2", 0.0, 100.0), T::var("a2", -128.0, 127.0), T::var("b2", -128.0, 127.0));
-    T::ensure("ciede2000.symmetric", abs_le(x.difference(y), y.difference(x), T::tol(1e-6, 1e-4)));
-    T::ensure("ciede2000.zero_on_identical", abs_le(x.difference(x), T::k(0.0), T::tol(1e-9, 1e-4)));
+    T::ensure("ciede2000.symmetric", same_or_close(x.difference(y), y.difference(x), T::tol(1e-6, 1e-4)));
 });
 
 program!(c09_cam16_ucs, "C09", "quick", sv,
